@@ -225,3 +225,28 @@ Theorem C08_plain_challenge_is_retried : forall (c:client) (s:lt_mech) (now:N) (
      | None => False end.
 Proof. exact AgentRetry.plain_challenge_is_retried. Qed.
 Print Assumptions C08_plain_challenge_is_retried.
+
+(* ---- the same IF direction at trace level: the monitor mon_C08_retry, in exactly the form ocaml/driver.ml runs it on the
+   implementation (on the schedule and long-term monitor states BEFORE the call, as monitor_step has threaded them through
+   the prefix), accepts every step of the model in every well-formed history, for every configuration and mechanism *)
+From Rustun Require Import Proofs.AgentMeets4.
+Theorem C08_model_meets_retry_monitor : forall (cf:config) (m:mech) (mc:mcfg) (cc:ccfg) (ops:list Model.op),
+  consistent mc cf -> consistent_cc cc cf m -> well_formed_history ops ->
+  forall (a:list Model.op) (o:Model.op) (b:list Model.op), ops = a ++ o :: b ->
+    let c := fst (run_state mc cc (init cf m) (mall0 cc) a) in
+    let s := snd (run_state mc cc (init cf m) (mall0 cc) a) in
+    let '(c', rep, evs) := Model.step c o in
+    mon_C08_retry cc (ma_core s) (ma_lt s) (mop_of o rep) (obs_of c c' o rep evs) = true.
+Proof. exact AgentMeets4.model_meets_C08_retry. Qed.
+Print Assumptions C08_model_meets_retry_monitor.
+(* and, read the other way: wherever the monitor's premise holds, the model's step yields exactly the retry notification *)
+Theorem C08_model_retries_when_monitor_demands :
+  forall (cf:config) (m:mech) (mc:mcfg) (cc:ccfg) (a:list Model.op) (now:N) (d:bool) (w:msg) (b:list Model.op),
+  consistent mc cf -> consistent_cc cc cf m -> well_formed_history (a ++ Model.Recv now d w :: b) ->
+  let c := fst (run_state mc cc (init cf m) (mall0 cc) a) in
+  let s := snd (run_state mc cc (init cf m) (mall0 cc) a) in
+  cc_mech cc = 4 ->
+  plain_challenge (cc_fp cc) (lm_challenged (ma_lt s)) (memN (m_id w) (live (ma_core s))) d w = true ->
+  snd (Model.step c (Model.Recv now d w)) = [Model.Retry (m_id w)] /\ snd (fst (Model.step c (Model.Recv now d w))) = Model.ROk None.
+Proof. exact AgentMeets4.model_retries_when_monitor_demands. Qed.
+Print Assumptions C08_model_retries_when_monitor_demands.
